@@ -18,10 +18,10 @@ structure Ctxt where
   base : List Val
   callers : List Act
 
-def Ctxt.at (X : Ctxt) (pc : Nat) (stk g : List Val) (h : List (List Val)) : FSt :=
-  ⟨⟨X.code, X.fd, X.cid, pc, X.base.length⟩, stk, g, h, X.callers⟩
+def Ctxt.at (X : Ctxt) (pc : Nat) (stk g : List Val) (h : List (List Val)) (a : Heap) : FSt :=
+  ⟨⟨X.code, X.fd, X.cid, pc, X.base.length⟩, stk, g, h, a, X.callers⟩
 
-def Ctxt.st (X : Ctxt) (pc : Nat) (ops : List Val) (σ : Sto) : FSt := X.at pc (ops ++ (σ.l.reverse ++ X.base)) σ.g σ.h
+def Ctxt.st (X : Ctxt) (pc : Nat) (ops : List Val) (σ : Sto) : FSt := X.at pc (ops ++ (σ.l.reverse ++ X.base)) σ.g σ.h σ.a
 
 /-! ## stack arithmetic -/
 
@@ -50,23 +50,23 @@ theorem botTake_base (Y base : List Val) : botTake (Y ++ base) (base.length - 1)
 
 /-! ## lifting the core machine -/
 
-theorem fstep_core {K : List Val} {F : FnDef → Option (List Instr)} {X : Ctxt} {pc : Nat} {stk g : List Val} {hp : List (List Val)} {t : St}
-    (h : step X.code K ⟨pc, stk, g⟩ = some t) : fstep K F (X.at pc stk g hp) = some (X.at t.pc t.stk t.g hp) := by
+/-- the instructions that look into their operands (an array's emptiness, its elements) are the
+machine's own; the others are the core machine's -/
+def coreOnly : Instr → Bool
+  | .op _ | .bang | .jif _ | .jifnp _ => false
+  | _ => true
+
+theorem fstep_core {K : List Val} {F : FnDef → Option (List Instr)} {X : Ctxt} {pc : Nat} {stk g : List Val} {hp : List (List Val)} {a : Heap} {t : St}
+    {i : Instr} {rest : List Instr} (hc : codeAt X.code pc (i :: rest)) (hi : coreOnly i = true)
+    (h : step X.code K ⟨pc, stk, g⟩ = some t) : fstep K F (X.at pc stk g hp a) = some (X.at t.pc t.stk t.g hp a) := by
   unfold fstep Ctxt.at
   simp only
-  cases hf : fetch X.code pc with
-  | none => simp [step, hf] at h
-  | some i =>
-    cases i <;> first
-      | (simp only [h]; done)
-      | (simp [step, hf] at h; done)
-
-/-- a run of the core machine is a run of the machine with frames, inside any activation whose code it is -/
-theorem FSteps.ofCore {K : List Val} {F : FnDef → Option (List Instr)} {X : Ctxt} {s t : St} {hp : List (List Val)} (h : Steps X.code K s t) :
-    FSteps K F (X.at s.pc s.stk s.g hp) (X.at t.pc t.stk t.g hp) := by
-  induction h with
-  | refl => exact .refl _
-  | cons hs _ ih => exact .cons (fstep_core hs) ih
+  have hf := fetch_codeAt hc
+  rw [hf]
+  cases i <;> first
+    | (simp only [h]; done)
+    | (simp [step, hf] at h; done)
+    | (simp [coreOnly] at hi; done)
 
 
 /-! ## one lemma per frame instruction -/
@@ -90,7 +90,7 @@ theorem fstep_getLocal {pc i : Nat} {ops : List Val} {σ : Sto} {v : Val}
 
 theorem fstep_setLocal {pc i : Nat} {ops : List Val} {σ : Sto} {v : Val}
     (h : codeAt X.code pc [Instr.setLocal i]) (hi : i < σ.l.length) :
-    fstep K F (X.st pc (v :: ops) σ) = some (X.st (pc + 2) (v :: ops) ⟨σ.l.set i v, σ.g, σ.h⟩) := by
+    fstep K F (X.st pc (v :: ops) σ) = some (X.st (pc + 2) (v :: ops) ⟨σ.l.set i v, σ.g, σ.h, σ.a⟩) := by
   unfold fstep Ctxt.st Ctxt.at
   have hlen : X.base.length + i < (v :: (ops ++ (σ.l.reverse ++ X.base))).length := by simp; omega
   have hset := botSet_st (v :: ops) σ.l X.base i v hi
@@ -99,7 +99,7 @@ theorem fstep_setLocal {pc i : Nat} {ops : List Val} {σ : Sto} {v : Val}
 
 theorem fstep_defLocal {pc i : Nat} {ops : List Val} {σ : Sto} {v : Val}
     (h : codeAt X.code pc [Instr.defLocal i]) (hi : i < σ.l.length) :
-    fstep K F (X.st pc (v :: ops) σ) = some (X.st (pc + 2) ops ⟨σ.l.set i v, σ.g, σ.h⟩) := by
+    fstep K F (X.st pc (v :: ops) σ) = some (X.st (pc + 2) ops ⟨σ.l.set i v, σ.g, σ.h, σ.a⟩) := by
   unfold fstep Ctxt.st Ctxt.at
   have hlen : X.base.length + i < (ops ++ (σ.l.reverse ++ X.base)).length := by simp; omega
   simp only [fetch_codeAt h, List.cons_append, hlen, if_true, botSet_st ops σ.l X.base i v hi]
@@ -108,7 +108,7 @@ theorem fstep_defLocal {pc i : Nat} {ops : List Val} {σ : Sto} {v : Val}
 of a new closure object, in the order they were loaded -/
 theorem fstep_closure {pc c : Nat} {vs ops : List Val} {σ : Sto} {fd : FnDef}
     (h : codeAt X.code pc [Instr.closure c vs.length]) (hk : K[c]? = some (.func fd)) :
-    fstep K F (X.st pc (vs.reverse ++ ops) σ) = some (X.st (pc + 4) (.clos fd [] σ.h.length :: ops) ⟨σ.l, σ.g, σ.h ++ [vs]⟩) := by
+    fstep K F (X.st pc (vs.reverse ++ ops) σ) = some (X.st (pc + 4) (.clos fd [] σ.h.length :: ops) ⟨σ.l, σ.g, σ.h ++ [vs], σ.a⟩) := by
   unfold fstep Ctxt.st Ctxt.at
   have hle : vs.length ≤ (vs.reverse ++ ops ++ (σ.l.reverse ++ X.base)).length := by simp
   have hd : (vs.reverse ++ ops ++ (σ.l.reverse ++ X.base)).drop vs.length = ops ++ (σ.l.reverse ++ X.base) := by
@@ -136,19 +136,112 @@ theorem fstep_getFree {pc i : Nat} {ops : List Val} {σ : Sto} {v : Val}
 
 theorem fstep_setFree {pc i : Nat} {ops : List Val} {σ : Sto} {v : Val} {h' : List (List Val)}
     (h : codeAt X.code pc [Instr.setFree i]) (hv : freeSet σ.h X.cid i v = some h') :
-    fstep K F (X.st pc (v :: ops) σ) = some (X.st (pc + 2) (v :: ops) ⟨σ.l, σ.g, h'⟩) := by
+    fstep K F (X.st pc (v :: ops) σ) = some (X.st (pc + 2) (v :: ops) ⟨σ.l, σ.g, h', σ.a⟩) := by
   unfold fstep Ctxt.st Ctxt.at
   simp only [fetch_codeAt h, List.cons_append, hv]
+
+
+/-! ## operators, truth tests, containers, builtins -/
+
+theorem fstep_op {pc : Nat} {o : Operator} {l r v : Val} {ops : List Val} {σ : Sto}
+    (h : codeAt X.code pc [Instr.op o]) (hv : opH σ.a o l r = .same v) :
+    fstep K F (X.st pc (r :: l :: ops) σ) = some (X.st (pc + 1) (v :: ops) σ) := by
+  unfold fstep Ctxt.st Ctxt.at
+  simp only [fetch_codeAt h, List.cons_append, hv]
+
+theorem fstep_opNew {pc : Nat} {o : Operator} {l r v : Val} {ops : List Val} {σ : Sto} {a' : Heap}
+    (h : codeAt X.code pc [Instr.op o]) (hv : opH σ.a o l r = .new v a') :
+    fstep K F (X.st pc (r :: l :: ops) σ) = some (X.st (pc + 1) (v :: ops) ⟨σ.l, σ.g, σ.h, a'⟩) := by
+  unfold fstep Ctxt.st Ctxt.at
+  simp only [fetch_codeAt h, List.cons_append, hv]
+
+theorem fstep_bang {pc : Nat} {v : Val} {ops : List Val} {σ : Sto}
+    (h : codeAt X.code pc [Instr.bang]) :
+    fstep K F (X.st pc (v :: ops) σ) = some (X.st (pc + 1) (.bool (falseyH σ.a v) :: ops) σ) := by
+  unfold fstep Ctxt.st Ctxt.at
+  simp only [fetch_codeAt h, List.cons_append]
+
+theorem fstep_jif {pc t : Nat} {v : Val} {ops : List Val} {σ : Sto}
+    (h : codeAt X.code pc [Instr.jif t]) :
+    fstep K F (X.st pc (v :: ops) σ) = some (X.st (if falseyH σ.a v then t else pc + 3) ops σ) := by
+  unfold fstep Ctxt.st Ctxt.at
+  simp only [fetch_codeAt h, List.cons_append]
+
+theorem fstep_jifnp {pc t : Nat} {v : Val} {ops : List Val} {σ : Sto}
+    (h : codeAt X.code pc [Instr.jifnp t]) :
+    fstep K F (X.st pc (v :: ops) σ) = some (X.st (if falseyH σ.a v then t else pc + 3) (v :: ops) σ) := by
+  unfold fstep Ctxt.st Ctxt.at
+  simp only [fetch_codeAt h, List.cons_append]
+
+theorem take_drop_rev (vs ops rest : List Val) :
+    (vs.reverse ++ ops ++ rest).take vs.length = vs.reverse ∧ (vs.reverse ++ ops ++ rest).drop vs.length = ops ++ rest := by
+  rw [List.append_assoc]
+  exact ⟨List.take_left' (by simp), List.drop_left' (by simp)⟩
+
+/-- `Array n`: the `n` operands on top (the last element on top) become a new array object -/
+theorem fstep_array {pc : Nat} {vs ops : List Val} {σ : Sto} {v : Val} {a' : Heap}
+    (h : codeAt X.code pc [Instr.array vs.length]) (hm : mkArr σ.a vs = (v, a')) :
+    fstep K F (X.st pc (vs.reverse ++ ops) σ) = some (X.st (pc + 3) (v :: ops) ⟨σ.l, σ.g, σ.h, a'⟩) := by
+  unfold fstep Ctxt.st Ctxt.at
+  have hle : vs.length ≤ (vs.reverse ++ ops ++ (σ.l.reverse ++ X.base)).length := by simp
+  obtain ⟨ht, hd⟩ := take_drop_rev vs ops (σ.l.reverse ++ X.base)
+  simp only [fetch_codeAt h, hle, if_true, hd, ht, List.reverse_reverse, hm]
+  rfl
+
+theorem fstep_hmap {pc : Nat} {vs ops : List Val} {σ : Sto} {m : Val} {a' : Heap}
+    (h : codeAt X.code pc [Instr.hmap vs.length]) (hm : mkMap σ.a vs = some (m, a')) :
+    fstep K F (X.st pc (vs.reverse ++ ops) σ) = some (X.st (pc + 3) (m :: ops) ⟨σ.l, σ.g, σ.h, a'⟩) := by
+  unfold fstep Ctxt.st Ctxt.at
+  have hle : vs.length ≤ (vs.reverse ++ ops ++ (σ.l.reverse ++ X.base)).length := by simp
+  obtain ⟨ht, hd⟩ := take_drop_rev vs ops (σ.l.reverse ++ X.base)
+  simp only [fetch_codeAt h, hle, if_true, hd, ht, List.reverse_reverse, hm]
+  rfl
+
+theorem fstep_getIndex {pc : Nat} {c i v : Val} {ops : List Val} {σ : Sto}
+    (h : codeAt X.code pc [Instr.getIndex]) (hv : getIndexH σ.a c i = some v) :
+    fstep K F (X.st pc (i :: c :: ops) σ) = some (X.st (pc + 1) (v :: ops) σ) := by
+  unfold fstep Ctxt.st Ctxt.at
+  simp only [fetch_codeAt h, List.cons_append, hv]
+
+/-- `SetIndex`: value, container, index (on top) are popped, the object changes, the value is pushed back -/
+theorem fstep_setIndex {pc : Nat} {c i v : Val} {ops : List Val} {σ : Sto} {a' : Heap}
+    (h : codeAt X.code pc [Instr.setIndex]) (hv : setIndexH σ.a c i v = some a') :
+    fstep K F (X.st pc (i :: c :: v :: ops) σ) = some (X.st (pc + 1) (v :: ops) ⟨σ.l, σ.g, σ.h, a'⟩) := by
+  unfold fstep Ctxt.st Ctxt.at
+  simp only [fetch_codeAt h, List.cons_append, hv]
+
+theorem fstep_getBuiltin {pc i : Nat} {n : String} {ops : List Val} {σ : Sto}
+    (h : codeAt X.code pc [Instr.getBuiltin i]) (hn : builtinName i = some n) :
+    fstep K F (X.st pc ops σ) = some (X.st (pc + 2) (.builtin n :: ops) σ) := by
+  unfold fstep Ctxt.st Ctxt.at
+  simp only [fetch_codeAt h, hn]
+  rfl
+
+/-- `Call n` on a builtin function: the callee and the `n` arguments are replaced by the result -/
+theorem fstep_callBuiltin {pc : Nat} {vs ops : List Val} {σ : Sto} {name : String} {r : Val} {a' : Heap}
+    (h : codeAt X.code pc [Instr.call vs.length]) (hr : callBuiltinH σ.a name vs = some (r, a')) :
+    fstep K F (X.st pc (vs.reverse ++ (.builtin name :: ops)) σ) = some (X.st (pc + 2) (r :: ops) ⟨σ.l, σ.g, σ.h, a'⟩) := by
+  unfold fstep Ctxt.st Ctxt.at
+  have hget : (vs.reverse ++ Val.builtin name :: ops ++ (σ.l.reverse ++ X.base))[vs.length]? = some (Val.builtin name) := by
+    rw [List.append_assoc, List.getElem?_append_right (by simp)]
+    simp
+  have ht : (vs.reverse ++ Val.builtin name :: ops ++ (σ.l.reverse ++ X.base)).take vs.length = vs.reverse := by
+    rw [List.append_assoc]; exact List.take_left' (by simp)
+  have hd : (vs.reverse ++ Val.builtin name :: ops ++ (σ.l.reverse ++ X.base)).drop (vs.length + 1) = ops ++ (σ.l.reverse ++ X.base) := by
+    rw [List.append_assoc, ← List.drop_drop, List.drop_left' (by simp)]
+    simp
+  simp only [fetch_codeAt h, hget, ht, List.reverse_reverse, hr, hd]
+  rfl
 
 /-- the activation a call creates: the callee's code and closure; below its slots the callee
 slot and the caller's stack; the caller's frame (resuming after the `Call`) on the frame stack -/
 def Ctxt.callee (X : Ctxt) (pc : Nat) (code : List Instr) (fd : FnDef) (id : Nat) (below : List Val) : Ctxt :=
   ⟨code, fd, id, below, ⟨X.code, X.fd, X.cid, pc + 2, X.base.length⟩ :: X.callers⟩
 
-theorem fstep_call {pc n : Nat} {vs rest fr : List Val} {g : List Val} {hp' : List (List Val)} {fd : FnDef} {id : Nat} {code : List Instr}
+theorem fstep_call {pc n : Nat} {vs rest fr : List Val} {g : List Val} {hp' : List (List Val)} {a : Heap} {fd : FnDef} {id : Nat} {code : List Instr}
     (h : codeAt X.code pc [Instr.call n]) (hn : vs.length = n) (hp : n = fd.numParams) (hF : F fd = some code) :
-    fstep K F (X.at pc (vs.reverse ++ (.clos fd fr id :: rest)) g hp') =
-      some ((X.callee pc code fd id (.clos fd fr id :: rest)).st 0 [] ⟨vs ++ List.replicate (fd.numLocals - n) .null, g, hp'⟩) := by
+    fstep K F (X.at pc (vs.reverse ++ (.clos fd fr id :: rest)) g hp' a) =
+      some ((X.callee pc code fd id (.clos fd fr id :: rest)).st 0 [] ⟨vs ++ List.replicate (fd.numLocals - n) .null, g, hp', a⟩) := by
   unfold fstep Ctxt.st Ctxt.at Ctxt.callee
   have hget : (vs.reverse ++ (Val.clos fd fr id :: rest))[n]? = some (Val.clos fd fr id) := by
     rw [List.getElem?_append_right (by simp [hn])]
@@ -156,17 +249,17 @@ theorem fstep_call {pc n : Nat} {vs rest fr : List Val} {g : List Val} {hp' : Li
   simp only [fetch_codeAt h, hget, ← hp, if_true, hF]
   simp [hn]
 
-theorem fstep_retv {pc : Nat} {Y : List Val} {g : List Val} {hp : List (List Val)} {v : Val} {c : Act} {cs : List Act}
+theorem fstep_retv {pc : Nat} {Y : List Val} {g : List Val} {hp : List (List Val)} {a : Heap} {v : Val} {c : Act} {cs : List Act}
     (h : codeAt X.code pc [Instr.retv]) (hc : X.callers = c :: cs) :
-    fstep K F (X.at pc (v :: (Y ++ X.base)) g hp) = some ⟨c, v :: X.base.tail, g, hp, cs⟩ := by
+    fstep K F (X.at pc (v :: (Y ++ X.base)) g hp a) = some ⟨c, v :: X.base.tail, g, hp, a, cs⟩ := by
   unfold fstep Ctxt.at
   have := botTake_base (v :: Y) X.base
   simp only [List.cons_append] at this
   simp only [fetch_codeAt h, hc, this]
 
-theorem fstep_ret {pc : Nat} {Y : List Val} {g : List Val} {hp : List (List Val)} {c : Act} {cs : List Act}
+theorem fstep_ret {pc : Nat} {Y : List Val} {g : List Val} {hp : List (List Val)} {a : Heap} {c : Act} {cs : List Act}
     (h : codeAt X.code pc [Instr.ret]) (hc : X.callers = c :: cs) :
-    fstep K F (X.at pc (Y ++ X.base) g hp) = some ⟨c, .null :: X.base.tail, g, hp, cs⟩ := by
+    fstep K F (X.at pc (Y ++ X.base) g hp a) = some ⟨c, .null :: X.base.tail, g, hp, a, cs⟩ := by
   unfold fstep Ctxt.at
   simp only [fetch_codeAt h, hc, botTake_base Y X.base]
 
